@@ -32,6 +32,7 @@ impl<S: Scanner> Clone for IsoState<S> {
 }
 
 pub struct IsoSys<S: Scanner> {
+    pub pid: &'static str,
     pub chans: [u8; 3],
     pub timeout: u64,
     pub cap: u64,
@@ -68,6 +69,7 @@ impl<S: Scanner> IsoSys<S> {
             }
         }
         IsoSys {
+            pid: "C15",
             chans: [a, b, third],
             timeout,
             cap: crate::iso::cap_for(timeout),
@@ -94,6 +96,9 @@ impl<S: Scanner> System for IsoSys<S> {
     type Action = IAct;
     type Key = (u128, u128, u128);
 
+    fn pid(&self) -> String {
+        self.pid.to_string()
+    }
     fn name(&self) -> String {
         format!("{} isolation product [a={}, b={}, third={}, timeout={}ms, {} controllers, {} system messages]", S::NAME, self.chans[0], self.chans[1], self.chans[2], if self.timeout >= (1 << 40) { "inf".to_string() } else { self.timeout.to_string() }, self.ctrls.len(), self.sys_msgs.len())
     }
